@@ -239,6 +239,20 @@ let op_aggregate r = function
       if not (M.c04_ok gs impl) then flag r "prop:C04";
       if not (M.c05_ok lvl gs impl) then flag r "prop:C05";
       if not (M.c12_ok gs impl) then flag r "prop:C12";
+      (* a bucket must not display the source-level rendering (Processed) of ONE member when its members differ there *)
+      let all_ids = List.map (fun (g : M.goroutine) -> g.M.iD) gs in
+      if List.length (List.sort_uniq compare all_ids) = List.length all_ids then
+      List.iter (fun (b : M.bucket) ->
+        let members = List.filter (fun (g : M.goroutine) -> List.mem g.M.iD b.M.iDs) gs in
+        List.iteri (fun k (c : M.call) ->
+          if c.M.cArgs.M.processed <> [] then begin
+            tag r "processed";
+            let margs = List.filter_map (fun (g : M.goroutine) ->
+              match List.nth_opt g.M.gSig.M.sStack.M.calls k with Some mc -> Some mc.M.cArgs | None -> None) members in
+            (* "differ" as Args.equal sees it (it ignores the inaccurate flag and Processed) *)
+            let renderings = match margs with [] -> [] | a0 :: rest -> if List.for_all (M.args_equal a0) rest then [a0] else [a0; a0] in
+            if List.length renderings > 1 then flag r "prop:C12:processed-of-one-member-kept"
+          end) b.M.bSig.M.sStack.M.calls) impl;
       if not (M.c13_ok impl) then flag r "prop:C13"
     end
   | _ -> failwith "aggregate: fields"
@@ -574,7 +588,17 @@ let op_cut r = function
           Buffer.add_string b "0,0,9"; tot := !tot + 9
         done;
         Buffer.contents b in
+      let chunks () =
+        let b = Buffer.create 64 in
+        let tot = ref 0 in
+        while !tot < cut + 13 do
+          if Buffer.length b > 0 then Buffer.add_char b ',';
+          Buffer.add_string b "13e"; tot := !tot + 13
+        done;
+        Buffer.contents b in
       let sched, final = (match signal with
+        | "chunkd" -> (chunks (), "fail:7")
+        | "chunke" -> (chunks (), "eof")
         | "fail" -> (string_of_int (String.length content_s + 1), "fail:7")
         | "faild" -> ("-", "fail:7")
         | "zeros" -> (zeros (), "eof")
@@ -599,14 +623,17 @@ let op_cut r = function
       (* error *)
       (* a scan error may only be reported for a complete line, or when the stream simply ended: a reader
          failure delivered with / after an unterminated fragment is reported as that failure *)
-      if signal <> "eof" && signal <> "zeros" && c_err = "scan" && not (String.contains (unhex c_suffix) '\n') then
+      if signal <> "eof" && signal <> "zeros" && signal <> "chunke" && c_err = "scan" && not (String.contains (unhex c_suffix) '\n') then
         flag r "prop:C10:reader-failure-replaced-by-scan-error";
       (match signal with
-       | "eof" | "zeros" ->
+       | "eof" | "zeros" | "chunke" ->
          if not (c_err = "eof" || c_err = "scan" || (not consumed_all && c_err = f_err)) then flag r "prop:C10:error-class"
        | _ ->
          if c_err = "fail:7" then ()
-         else if consumed_all && (signal = "fail" || signal = "failz") then flag r "prop:C10:reader-failure-not-reported"
+         else if consumed_all && (signal = "fail" || signal = "failz")
+                 (* a race report's closing separator ends the scan by itself: the reader is not asked again *)
+                 && not (kind = "race" && c_err = "nil" && is_suffix "==================\n" cut_s && List.length cgs = List.length fgs)
+         then flag r "prop:C10:reader-failure-not-reported"
          else if not (c_err = "nil" || c_err = "scan") then flag r "prop:C10:error-class");
       (* goroutines complete before the cut are present and identical *)
       let ends_l = List.map int_of_string (split_on ',' ends) in
@@ -731,10 +758,11 @@ let op_pp r = function
          else if (ok && exp_code <> "0") || (not ok && exp_code = "0") then flag r ("corr:pp-exit:" ^ what)) in
     run (mk [] None None) plain_s pe "plain";
     run (mk pal None None) color_s ce "color";
-    (* a literal is a substring test; \001X = the regexp X$ (end of text), \002X = X\n$ *)
+    (* a literal is a substring test; \001X = the regexp X$ (end of text), \002X = X\n$, \003X = ^X\n$ *)
     let pred = (match litb with
       | M.Npos M.XH :: x -> Some (fun h -> M.has_suffix h x)
       | M.Npos (M.XO M.XH) :: x -> Some (fun h -> M.has_suffix h (x @ [byte_tab.(10)]))
+      | M.Npos (M.XI M.XH) :: x -> Some (fun h -> h = x @ [byte_tab.(10)])     (* \003X = ^X\n$ : the whole header *)
       | _ -> Some (fun h -> M.contains h litb)) in
     if litb <> [] then begin
       run (mk [] pred None) (unhex filt) fe "filter";
